@@ -263,6 +263,8 @@ ApplyAttach(n, x, b, dropOwn, fin, extraKf) ==
     /\ LET s1 == DropStreamsOf(x.truncated \cup (IF dropOwn THEN {n} ELSE {}), streams)
        IN /\ streams' = s1 /\ fol' = FolAfterDrop(x.fol, s1)
     /\ applied' = IF fin THEN [applied EXCEPT ![n] = Applied(@, x.wal[n], x.synced[n])] ELSE applied
+    \* a controller that is replaced by one of the other kind is closed first: its DB is flushed
+    /\ dur' = [m \in Nodes |-> IF ctrl[m] # "none" /\ x.ctrl[m] # ctrl[m] THEN [dur[m] EXCEPT !.applied = applied[m]] ELSE dur[m]]
     /\ leaders' = IF fin THEN [leaders EXCEPT ![x.term[n]] = @ \cup {n}] ELSE leaders
     \* attaching a follower that already holds entries can advance the commit offset at once
     /\ hcommit' = hcommit \cup {[off |-> i, e |-> x.wal[n][i], by |-> x.term[n]] :
@@ -397,6 +399,7 @@ CursorConnect(l, f) ==
           /\ term' = [term EXCEPT ![f] = IF g.swap THEN DiskTerm(f) ELSE @]
           /\ status' = [status EXCEPT ![f] = st]
           /\ synced' = [synced EXCEPT ![f] = IF g.swap THEN Len(wal[f]) ELSE @]     \* clean close of the old controller
+          /\ dur' = [dur EXCEPT ![f] = IF g.swap /\ ctrl[f] # "none" THEN [@ EXCEPT !.applied = applied[f]] ELSE @]
           /\ IF accept
              THEN /\ sid' = sid + 1
                   /\ streams' = r.strm
@@ -410,7 +413,15 @@ CursorConnect(l, f) ==
                   /\ LET s1 == DropStreamsOf({f}, streams) IN
                      streams' = s1 /\ fol' = FolAfterDrop([fol EXCEPT ![f] = fo], s1)
                   /\ lead' = [lead EXCEPT ![f] = NULL]
-    /\ UNCHANGED <<up, wal, phantom, applied, dur, coVars, histVars>>
+    \* a pending signal with nothing left to flush makes the new stream's sync goroutine run an empty round
+    \* at once: nothing to acknowledge, but the apply round is signalled
+    /\ LET g == FollowerFor(f, term[l])
+           fo == IF g.swap THEN [adv |-> 0, sig |-> FALSE, stream |-> 0] ELSE fol[f]
+           st == IF g.swap THEN DiskStatus(f) ELSE status[f]
+           accept == g.ok /\ st \in {"FENCED", "FOLLOWER"} /\ fo.stream = 0
+           upto == IF fo.adv < Len(wal[f]) THEN fo.adv ELSE Len(wal[f])
+       IN applied' = [applied EXCEPT ![f] = IF accept /\ fo.sig /\ synced[f] = Len(wal[f]) THEN Applied(@, wal[f], upto) ELSE @]
+    /\ UNCHANGED <<up, wal, phantom, coVars, histVars>>
 
 \* the cursor sends a DB snapshot (follower_cursor.go:sendSnapshot, follower_controller.go:handleSnapshot):
 \* the follower's WAL is wiped and its DB replaced by the leader's
@@ -432,7 +443,9 @@ CursorSnapshot(l, f) ==
           /\ phantom' = [phantom EXCEPT ![f] = k]
           /\ synced' = [synced EXCEPT ![f] = k]
           /\ applied' = [applied EXCEPT ![f] = applied[l]]
-          /\ dur' = [dur EXCEPT ![f] = [term |-> term[l], applied |-> applied[l]]]
+          \* db.Snapshot() on the leader is a Pebble checkpoint: it flushes the leader's DB as well
+          /\ dur' = [dur EXCEPT ![f] = [term |-> term[l], applied |-> applied[l]],
+                                ![l] = [@ EXCEPT !.applied = applied[l]]]
           /\ fol' = [fol EXCEPT ![f] = [fo EXCEPT !.lastApp = k, !.adv = 0]]
           /\ lead' = [(IF g.swap THEN [lead EXCEPT ![f] = NULL] ELSE lead)
                          EXCEPT ![l] = [@ EXCEPT !.cur = [@ EXCEPT ![f] = [@ EXCEPT !.ack = k, !.pushed = k]]]]
@@ -592,7 +605,7 @@ CoBecomeLeader(n, R) ==
                    stale == IF \E m \in R \cap meta.removed : HeadLess(RespHead(n), RespHead(m)) THEN {"swapStale"} ELSE {}
                IN /\ ApplyAttach(n, x, x.ok, ctrl[n] # "leader", fin, stale)
                   /\ co' = [co EXCEPT !.phase = IF x.ok THEN "becoming" ELSE "failed", !.leader = n, !.fmap = fm]
-                  /\ UNCHANGED <<up, dur, sid>>
+                  /\ UNCHANGED <<up, sid>>
     /\ ntr' = {}
     /\ UNCHANGED <<meta, ntq, acked, nwrites, budget>>
 
@@ -654,7 +667,7 @@ CoRetryAdd(f) ==
                  IN IF x.ok
                     THEN /\ ApplyAttach(l, x, FALSE, FALSE, FALSE, {})
                          /\ co' = [co EXCEPT !.retry = @ \ {f}]
-                         /\ UNCHANGED <<up, dur, sid>>
+                         /\ UNCHANGED <<up, sid>>
                     ELSE /\ UNCHANGED <<nodeVars, wireVars, co, hcommit, fence, kf, leaders>>
     /\ UNCHANGED <<meta, ntq, acked, nwrites, budget>>
 
